@@ -112,6 +112,8 @@ impl JapaneseDictionary {
             dic = dic.merge_user_dictionary(udic)?;
         }
 
+        #[cfg(sudachi_verif)]
+        crate::verif::emit_global("frozen", serde_json::json!({}));
         Ok(dic)
     }
 
